@@ -586,11 +586,11 @@ def check_lowpass(chk, ctx, case, do_model=True):
 def gen_lowpass_case(rng, tier, d=None, regime=None, deep=False):
     if d is None:
         d = int(rng.choice([1, 1, 1, 2, 2, 3]))
-    hi = {1: 20, 2: (8 if tier == 'quick' else 12), 3: (4 if tier == 'quick' else 6)}[d]
+    hi = {1: 20, 2: (10 if tier == 'quick' else 14), 3: (4 if tier == 'quick' else 6)}[d]
     if regime is None:
         regime = ['analytic', 'analytic', 'mixed', 'simulated'][int(rng.integers(4))]
     if regime != 'analytic':
-        hi = min(hi, {1: 12, 2: 6, 3: 4}[d])
+        hi = min(hi, {1: 14, 2: 6, 3: 4}[d])
     pops = []
     for _ in range(d):
         nseq, nsub = gen_sizes(rng, hi)
@@ -676,9 +676,9 @@ def run(chk, ctx):
     # ---- partition probabilities
     sizes = list(range(2, 22, 2))
     for nseq in sizes:
-        Fs = [0.0] + [gen_F(rng, allow_tiny=False) or 0.5 for _ in range(2 if quick else 6)]
+        Fs = [0.0] + [gen_F(rng, allow_tiny=False) or 0.5 for _ in range(4 if quick else 12)]
         for F in Fs:
-            xs = range(nseq + 1) if (quick and nseq <= 10) or not quick else sorted(set([0, 1, 2, nseq // 2, nseq - 1, nseq] + [int(v) for v in rng.integers(0, nseq + 1, 4)]))
+            xs = range(nseq + 1)
             for x in xs:
                 check_partprobs(chk, ctx, nseq, F, x)
         check_genotype_type(chk, ctx, nseq, Fs[int(rng.integers(len(Fs)))])
@@ -691,12 +691,12 @@ def run(chk, ctx):
         nseq, nsub = gen_sizes(rng, 12)
         check_proj_continuity(chk, ctx, nseq, nsub, 2.0 ** -k)
     # ---- matrices
-    for _ in range(40 if quick else 300):
+    for _ in range(150 if quick else 1000):
         check_projinb(chk, ctx, rng)
-    for it in range(24 if quick else 150):
+    for it in range(80 if quick else 500):
         nseq, nsub = gen_sizes(rng, 20 if it % 3 else 12)
         check_projmat(chk, ctx, nseq, nsub, gen_F(rng, allow_tiny=(it % 6 == 5)))
-    for it in range(30 if quick else 200):
+    for it in range(100 if quick else 700):
         c, ck = gen_cov(rng); chk.stat('cov_' + ck)
         nseq, nsub = gen_sizes(rng, 20 if it % 4 == 0 else 12)
         F = gen_F(rng, allow_tiny=(it % 10 == 9))
@@ -708,10 +708,10 @@ def run(chk, ctx):
     plan = []
     for d in (1, 2, 3):
         for regime in ('analytic', 'mixed', 'simulated'):
-            reps = {1: (6, 30), 2: (3, 14), 3: (1, 5)}[d][0 if quick else 1]
+            reps = {1: (16, 90), 2: (8, 45), 3: (3, 14)}[d][0 if quick else 1]
             if regime == 'analytic': reps *= 2
             plan += [(d, regime, False)] * reps
-    plan += [(1, 'analytic', True)] * (4 if quick else 20) + [(2, 'analytic', True)] * (2 if quick else 10) + [(1, 'mixed', True)] * (2 if quick else 6) + [(3, 'analytic', True)] * (1 if quick else 3)
+    plan += [(1, 'analytic', True)] * (10 if quick else 60) + [(2, 'analytic', True)] * (5 if quick else 30) + [(1, 'mixed', True)] * (4 if quick else 16) + [(3, 'analytic', True)] * (2 if quick else 8)
     for d, regime, deep in plan:
         check_lowpass(chk, ctx, gen_lowpass_case(rng, tier, d=d, regime=regime, deep=deep))
     check_refusals(chk, ctx, rng)
